@@ -22,6 +22,9 @@ CHECKS = {
  "C16": dict(level="proof", technique="contract-based deductive verification (pyvc): loop invariants of both loops of specialize_source over abstract source lines, per line shape and target; SMT proof of the CUDA grid arithmetic taken from KernelCupy.__call__; bounded native runs (real CPU contexts, host simulation of GPU forms)",
    text="Proved for all sources built from the annotation vocabulary (abstract list of lines of any length): per target, vectorize_over/end_vectorize expand to the loop/guard forms of the property, context-restricted lines are active exactly on the named targets, include lines for other contexts add nothing, all other text is unchanged, nested blocks raise; the CUDA grid covers [0,n) exactly once (empty for n=0) and the OpenCL global size is n. What a real OpenCL/CUDA runtime or OpenMP does is not applicable (no device); included files for the named target are covered by the bounded native part only.",
    note="Trusted: string axioms, C semantics of the emitted for/if constructs, exact real arithmetic for n/B, the runtimes launching exactly the requested geometry.", ref="5 C16"),
+   "C13": dict(level="proof", technique="contract-based deductive verification (pyvc symbolic execution of the real primitives against a byte-map storage model, whole-buffer postconditions, z3/cvc5); library behaviour of bytearray/numpy as named assumed contracts; exhaustive small-scope native validation",
+   text="Every byte-copy primitive of both CPU buffer classes (and update_from_xbuffer on both dispatch branches) is verified for all capacities, offsets and lengths: exactly the addressed bytes change to the source bytes, all other bytes, the length and the source are unchanged, extracted copies are fresh storage, typed views alias the buffer at the requested offset, update_from_nplike stores the C-order encoding for every source layout. The proof is relative to eight named axioms about bytearray/numpy slicing, copying, frombuffer, astype, .data and view (the bulk of the trusted base), which the bounded part validates exhaustively for capacity <= 10/14 and the dtype/layout lists.",
+   note="Trusted: storage axioms of pyvc/storage.py (assumed contracts on dependencies), dtype conversion opaque; precondition: in-range offsets, one buffer class per context object.", ref="5 C13, 4.5"),
 }
 NA = {}
 
